@@ -557,6 +557,56 @@ pub open spec fn keyed(m: Map<TargetId, Target>) -> bool {
 pub open spec fn extends(a: Map<TargetId, Target>, b: Map<TargetId, Target>) -> bool {
     forall|t: TargetId| #![trigger a.contains_key(t)] #![trigger b.contains_key(t)] a.contains_key(t) ==> b.contains_key(t) && b[t] == a[t]
 }
+/// [C09.only-reachable] a chain of resolved targets, each depending (declared or through `X.output`) on the next
+pub open spec fn is_path(m: Map<TargetId, Target>, p: Seq<TargetId>) -> bool {
+    p.len() >= 1 && forall|i: int| 0 <= i < p.len() - 1 ==> m.contains_key(#[trigger] p[i]) && m[p[i]].meta().dependencies@.contains(p[i + 1])
+}
+/// `k` is reachable from `a` through dependencies of resolved targets (`a` itself included)
+pub open spec fn reach(m: Map<TargetId, Target>, a: TargetId, k: TargetId) -> bool {
+    exists|p: Seq<TargetId>| #[trigger] is_path(m, p) && p[0] == a && p.last() == k
+}
+pub proof fn lemma_reach_refl(m: Map<TargetId, Target>, a: TargetId)
+    ensures reach(m, a, a),
+{
+    let p = seq![a];
+    assert(is_path(m, p));
+    assert(p[0] == a && p.last() == a);
+}
+pub proof fn lemma_reach_extends(m1: Map<TargetId, Target>, m2: Map<TargetId, Target>, a: TargetId, k: TargetId)
+    requires extends(m1, m2), reach(m1, a, k),
+    ensures reach(m2, a, k),
+{
+    let p = choose|p: Seq<TargetId>| #[trigger] is_path(m1, p) && p[0] == a && p.last() == k;
+    assert forall|i: int| 0 <= i < p.len() - 1 implies m2.contains_key(#[trigger] p[i]) && m2[p[i]].meta().dependencies@.contains(p[i + 1]) by {
+        assert(m1.contains_key(p[i]));
+    }
+    assert(is_path(m2, p));
+}
+pub proof fn lemma_reach_step(m: Map<TargetId, Target>, a: TargetId, b: TargetId, k: TargetId)
+    requires m.contains_key(a), m[a].meta().dependencies@.contains(b), reach(m, b, k),
+    ensures reach(m, a, k),
+{
+    let p = choose|p: Seq<TargetId>| #[trigger] is_path(m, p) && p[0] == b && p.last() == k;
+    let q = seq![a] + p;
+    assert forall|i: int| 0 <= i < q.len() - 1 implies m.contains_key(#[trigger] q[i]) && m[q[i]].meta().dependencies@.contains(q[i + 1]) by {
+        if i == 0 {
+            assert(q[0] == a && q[1] == p[0]);
+        } else {
+            assert(q[i] == p[i - 1] && q[i + 1] == p[i]);
+        }
+    }
+    assert(is_path(m, q));
+    assert(q[0] == a && q.last() == p.last());
+}
+/// every key added between `m0` and `m` is reachable from one of the first `n` ids of `from`
+pub open spec fn new_keys_reached(m0: Map<TargetId, Target>, m: Map<TargetId, Target>, from: Seq<TargetId>, n: int) -> bool {
+    forall|k: TargetId| #![trigger m.contains_key(k)] m.contains_key(k) && !m0.contains_key(k) ==> exists|j: int| 0 <= j < n && reach(m, #[trigger] from[j], k)
+}
+/// no id of `chain` that was absent before has been added
+pub open spec fn chain_untouched(m0: Map<TargetId, Target>, m: Map<TargetId, Target>, chain: Seq<&TargetId>) -> bool {
+    forall|i: int| 0 <= i < chain.len() && !m0.contains_key(*#[trigger] chain[i]) ==> !m.contains_key(*chain[i])
+}
+
 /// the yaml target `id` is still available in the configuration
 pub open spec fn cfg_has(c: &Config, id: TargetId) -> bool {
     c.projects@.contains_key(id.project_name) && c.projects@[id.project_name].1.targets@.contains_key(id.target_name)
@@ -666,6 +716,8 @@ pub proof fn lemma_shrinks_trans(a: &Config, b: &Config, c: &Config)
         /*[C09.keyed]*/ r is Ok ==> keyed(final(domain_targets)@),
         /*[C09.unknown]*/ !old(domain_targets)@.contains_key(*target_id) && !cfg_has(old(config), *target_id) ==> r is Err,
         /*[C09.acyclic]*/ !old(domain_targets)@.contains_key(*target_id) && parent_targets@.contains(target_id) ==> r is Err,
+        /*[C09.acyclic]*/ r is Ok ==> chain_untouched(old(domain_targets)@, final(domain_targets)@, parent_targets@),
+        /*[C09.only-reachable]*/ r is Ok ==> forall|k: TargetId| #![trigger final(domain_targets)@.contains_key(k)] final(domain_targets)@.contains_key(k) && !old(domain_targets)@.contains_key(k) ==> reach(final(domain_targets)@, *target_id, k),
         r is Err ==> closed(final(domain_targets)@) && keyed(final(domain_targets)@),
     decreases
         /*[C09.terminates]*/ remaining(old(config), keys_of(old(config))),
@@ -703,6 +755,9 @@ pub proof fn lemma_shrinks_trans(a: &Config, b: &Config, c: &Config)
                 it.seq().unref() == deps_all,
                 target.meta().dependencies@ == deps_all, target.meta().id == *target_id,
                 forall|j: int| #![trigger deps_all[j]] 0 <= j < it.index@ ==> domain_targets@.contains_key(deps_all[j]),
+                targets_chain@ == parent_targets@.push(target_id),
+                /*[C09.acyclic]*/ chain_untouched(dt0, domain_targets@, targets_chain@),
+                /*[C09.only-reachable]*/ new_keys_reached(dt0, domain_targets@, deps_all, it.index@ as int),
 //@loopbody
                 broadcast use group_keys;
                 broadcast use vstd::std_specs::hash::group_hash_axioms;
@@ -725,6 +780,23 @@ pub proof fn lemma_shrinks_trans(a: &Config, b: &Config, c: &Config)
                     assert forall|j: int| 0 <= j < it.index@ + 1 implies domain_targets@.contains_key(#[trigger] deps_all[j]) by {
                         if j < it.index@ { assert(dt_before.contains_key(deps_all[j])); }
                     }
+                    // [C09.acyclic] the recursive call (whose ancestor chain is `targets_chain`) added none of them
+                    assert(chain_untouched(dt0, domain_targets@, targets_chain@)) by {
+                        assert forall|i: int| 0 <= i < targets_chain@.len() && !dt0.contains_key(*#[trigger] targets_chain@[i]) implies !domain_targets@.contains_key(*targets_chain@[i]) by {
+                            assert(!dt_before.contains_key(*targets_chain@[i]));
+                        }
+                    }
+                    // [C09.only-reachable] keys added earlier stay reachable from the same dependency, the new ones are reachable from this one
+                    assert(new_keys_reached(dt0, domain_targets@, deps_all, it.index@ + 1)) by {
+                        assert forall|k: TargetId| #![trigger domain_targets@.contains_key(k)] domain_targets@.contains_key(k) && !dt0.contains_key(k) implies exists|j: int| 0 <= j < it.index@ + 1 && reach(domain_targets@, #[trigger] deps_all[j], k) by {
+                            if dt_before.contains_key(k) {
+                                let j = choose|j: int| 0 <= j < it.index@ && reach(dt_before, #[trigger] deps_all[j], k);
+                                lemma_reach_extends(dt_before, domain_targets@, deps_all[j], k);
+                            } else {
+                                assert(reach(domain_targets@, deps_all[it.index@ as int], k));
+                            }
+                        }
+                    }
                 }
 //@before 1 `for dependency_id in`
             let ghost dt1 = domain_targets@;
@@ -739,6 +811,9 @@ pub proof fn lemma_shrinks_trans(a: &Config, b: &Config, c: &Config)
                 forall|j: int| #![trigger dependencies_from_input@[j]] 0 <= j < dependencies_from_input@.len() ==> deps_all.contains(dependencies_from_input@[j]),
                 !(target is Aggregate) || dependencies_from_input@.len() == 0,
                 domain_targets@ == dt1,
+                targets_chain@ == parent_targets@.push(target_id),
+                chain_untouched(dt0, dt1, targets_chain@),
+                new_keys_reached(dt0, dt1, deps_all, deps_all.len() as int),
                 /*[C13.inherit]*/ dependencies_from_input@.len() > 0 ==> target.inp() is Some
                     && target.inp()->Some_0.files@ == inherited_files(files0, dependencies_from_input@, dt1, it2.index@ as int)
                     && target.inp()->Some_0.cmds@ == inherited_cmds(cmds0, dependencies_from_input@, dt1, it2.index@ as int),
@@ -755,6 +830,32 @@ pub proof fn lemma_shrinks_trans(a: &Config, b: &Config, c: &Config)
                     reveal_with_fuel(inherited_cmds, 2);
                 }
 //@before 0 `domain_targets.insert(target_id.clone(), target);`
+            let ghost fin = dt1.insert(*target_id, target);
+            proof {
+                // [C09.acyclic] this target is the last element of the chain its dependencies were resolved under
+                assert(targets_chain@[targets_chain@.len() - 1] == target_id);
+                assert(!dt1.contains_key(*target_id));
+                assert(extends(dt1, fin));
+                assert(chain_untouched(dt0, fin, parent_targets@)) by {
+                    assert forall|i: int| 0 <= i < parent_targets@.len() && !dt0.contains_key(*#[trigger] parent_targets@[i]) implies !fin.contains_key(*parent_targets@[i]) by {
+                        assert(targets_chain@[i] == parent_targets@[i]);
+                        assert(!dt1.contains_key(*parent_targets@[i]));
+                        assert(parent_targets@.contains(parent_targets@[i]));
+                    }
+                }
+                // [C09.only-reachable] every key added by this call is reachable from this target
+                assert forall|k: TargetId| #![trigger fin.contains_key(k)] fin.contains_key(k) && !dt0.contains_key(k) implies reach(fin, *target_id, k) by {
+                    if k == *target_id {
+                        lemma_reach_refl(fin, k);
+                    } else {
+                        assert(dt1.contains_key(k));
+                        let j = choose|j: int| 0 <= j < deps_all.len() && reach(dt1, #[trigger] deps_all[j], k);
+                        lemma_reach_extends(dt1, fin, deps_all[j], k);
+                        assert(fin[*target_id].meta().dependencies@.contains(deps_all[j]));
+                        lemma_reach_step(fin, *target_id, deps_all[j], k);
+                    }
+                }
+            }
             proof {
                 assert(/*[C01.outdep,C13.dep]*/ forall|j: int| 0 <= j < refs.len() ==> target.meta().dependencies@.contains(#[trigger] refs[j]));
                 assert(/*[C09.output-kind]*/ forall|j: int| 0 <= j < refs.len() ==> domain_targets@.contains_key(refs[j]) && domain_targets@[#[trigger] refs[j]] is Build);
@@ -772,6 +873,7 @@ impl Config {
     ensures
         /*[C09.closed]*/ r matches Ok(m) ==> closed(m@) && forall|i: int| 0 <= i < root_target_ids@.len() ==> m@.contains_key(#[trigger] root_target_ids@[i]),
         /*[C09.keyed]*/ r matches Ok(m) ==> keyed(m@),
+        /*[C09.only-reachable]*/ r matches Ok(m) ==> forall|k: TargetId| #![trigger m@.contains_key(k)] m@.contains_key(k) ==> exists|j: int| 0 <= j < root_target_ids@.len() && reach(m@, #[trigger] root_target_ids@[j], k),
 //@pre
         broadcast use group_keys;
         broadcast use vstd::std_specs::hash::group_hash_axioms;
@@ -780,6 +882,7 @@ impl Config {
                 closed(domain_targets@), keyed(domain_targets@),
                 it.seq().unref() == root_target_ids@,
                 forall|j: int| #![trigger root_target_ids@[j]] 0 <= j < it.index@ ==> domain_targets@.contains_key(root_target_ids@[j]),
+                /*[C09.only-reachable]*/ new_keys_reached(Map::<TargetId, Target>::empty(), domain_targets@, root_target_ids@, it.index@ as int),
 //@loopbody
             broadcast use group_keys;
             broadcast use vstd::std_specs::hash::group_hash_axioms;
@@ -789,6 +892,16 @@ impl Config {
             proof {
                 assert forall|j: int| 0 <= j < it.index@ + 1 implies domain_targets@.contains_key(#[trigger] root_target_ids@[j]) by {
                     if j < it.index@ { assert(dt_before.contains_key(root_target_ids@[j])); }
+                }
+                assert(new_keys_reached(Map::<TargetId, Target>::empty(), domain_targets@, root_target_ids@, it.index@ + 1)) by {
+                    assert forall|k: TargetId| #![trigger domain_targets@.contains_key(k)] domain_targets@.contains_key(k) implies exists|j: int| 0 <= j < it.index@ + 1 && reach(domain_targets@, #[trigger] root_target_ids@[j], k) by {
+                        if dt_before.contains_key(k) {
+                            let j = choose|j: int| 0 <= j < it.index@ && reach(dt_before, #[trigger] root_target_ids@[j], k);
+                            lemma_reach_extends(dt_before, domain_targets@, root_target_ids@[j], k);
+                        } else {
+                            assert(reach(domain_targets@, root_target_ids@[it.index@ as int], k));
+                        }
+                    }
                 }
             }
 //@end
